@@ -288,7 +288,9 @@ def run_scheduler(spec):
             d = sch.on_trial_result(trials[tid], {METRIC: v, RES: r})
         except Exception as e:  # noqa
             lines.append((inp, {"err": errname(e)}))
-            events.append({"ev": "result-error", "trial": tid, "resource": r, "err": errname(e), "msg": str(e)[:200]})
+            pend = sch._trial_to_pending_slot.get(tid)
+            events.append({"ev": "result-error", "trial": tid, "resource": r, "err": errname(e), "msg": str(e)[:200],
+                           "skipped_level": pend is not None and r > pend[1].level})
             return None
         out = {"decision": d, "calls": stub.take()}
         out.update(wire(snapshot_scheduler(sch, cache), pre[0]))
@@ -342,14 +344,18 @@ def run_scheduler(spec):
             has_config = not (rng.random() < spec.get("p_noconfig", 0))
             stub.next_has_config = has_config
             stub.asked = False
-            inp = {"op": "suggest", "trial_id": next_id, "has_config": has_config}
+            use_id = next_id
+            if script is None and sch._trial_to_pending_slot and rng.random() < spec.get("p_reuse", 0):
+                # contract violation by the caller: the id of a trial which is still pending
+                use_id = rng.choice(sorted(sch._trial_to_pending_slot))
+            inp = {"op": "suggest", "trial_id": use_id, "has_config": has_config}
             before = snapshot_scheduler(sch, cache)
             pre[0] = before["primary"]
             try:
-                sg = sch.suggest(next_id)
+                sg = sch.suggest(use_id)
             except Exception as e:  # noqa
                 lines.append((inp, {"err": errname(e)}))
-                events.append({"ev": "suggest-error", "err": errname(e), "msg": str(e)[:200]})
+                events.append({"ev": "suggest-error", "err": errname(e), "msg": str(e)[:200], "reused_id": use_id != next_id})
                 break
             calls = stub.take()
             if sg is None:
@@ -709,6 +715,19 @@ def check_top(below, got, mode):
     return None
 
 
+def _in_contract(events):
+    """the events up to (and including) the first violation of the caller's contract injected
+    by the harness (a pending trial's id handed to suggest, a report beyond the milestone):
+    the real call raises half-way, what the state looks like afterwards is not the property's
+    concern"""
+    out = []
+    for ev in events:
+        out.append(ev)
+        if (ev["ev"] == "suggest-error" and ev.get("reused_id")) or (ev["ev"] == "result-error" and ev.get("skipped_level")):
+            break
+    return out
+
+
 def _states(events):
     for ev in events:
         if "state" in ev:
@@ -726,7 +745,25 @@ def monitor_c05(trace):
         out.append({"signature": sig, "what": what, "detail": {k: v for k, v in ev.items() if k not in ("before",)}})
 
     seen_rungs = set()
-    for ev in _states(trace["events"]):
+    failed = set()
+    events = _in_contract(trace["events"])
+    for ev in events:
+        # no call raises (except the assertion against a training script skipping its rung level)
+        if ev["ev"] == "suggest-error" and not ev.get("reused_id"):
+            add("c05:suggest-raises", f"suggest raised {ev.get('err')}: {ev.get('msg')}", ev)
+        if ev["ev"] == "result-error" and not ev.get("skipped_level"):
+            add("c05:result-raises", f"on_trial_result raised {ev.get('err')}: {ev.get('msg')}", ev)
+        if ev["ev"] == "on_result-error" and ev.get("legal"):
+            add("c05:result-raises", f"manager.on_result raised {ev.get('err')} on a legal call", ev)
+    for ev in _states(events):
+        # the trials resumed are the best ones of the completed rung, failed ones rank last:
+        # a trial which failed (on_trial_error) must not be resumed (F4: get_top_list fills up
+        # the next rung with failed trials when too few valid entries exist)
+        if ev["ev"] == "error" and ev.get("was_pending"):
+            failed.add(ev["trial"])  # (a paused trial cannot fail; such calls are ignored by the scheduler)
+        if ev["ev"] == "resume" and ev["trial"] in failed:
+            add("c05:failed-trial-promoted",
+                f"failed trial {ev['trial']} was promoted and is resumed to level {ev['level']} (bracket {ev['bracket']})", ev)
         st = ev["state"]
         brs = st["brackets"]
         # cycle: bracket b uses rung system b mod num_offsets, rungs have exactly the configured sizes
@@ -756,10 +793,6 @@ def monitor_c05(trace):
                             why = check_top(below, got, mode)
                             if why is not None:
                                 add("c05:top-list", f"bracket {b}: rung {k} = {got} from rung below {below}: {why}", ev)
-                            if [x for x in got if x in [e[0] for e in below if e[1] == "nan"]]:
-                                add("c05:failed-trial-promoted",
-                                    f"bracket {b}: failed trial(s) {[x for x in got if x in [e[0] for e in below if e[1] == 'nan']]} promoted from rung {k-1} "
-                                    f"({sum(1 for e in below if e[1] != 'nan')} valid entries for {len(content)} slots)", ev)
         # primary = least id of a bracket which is not complete
         incomplete = [b for b, br in enumerate(brs) if br["current"] < len(br["rungs"])]
         if not incomplete or st["primary"] != incomplete[0]:
@@ -777,24 +810,20 @@ def monitor_c05(trace):
                     if isinstance(cur, list) and br["first_free"] < len(cur):
                         free.append(b)
             created = len(st["brackets"]) - len(bf["brackets"])
-            # (a result processed inside the same call — failed slot — may create one more bracket)
-            if free and created > (1 if ev["ev"] == "suggest-none" else 0):
-                add("c05:new-bracket-rule", f"new bracket although brackets {free} had a free slot", ev)
+            # "if all open brackets wait for results a new bracket is opened" (and serves the job)
             if not free and created < 1:
                 add("c05:new-bracket-rule", "no open bracket had a free slot but no bracket was created", ev)
-            if ev["ev"] in ("start", "resume", "next_job"):
-                b_used = ev["bracket"]
-                if free and b_used != free[0]:
-                    add("c05:new-bracket-rule", f"job assigned to bracket {b_used}, first open bracket with a free slot is {free[0]}", ev)
-                if not free and b_used != len(bf["brackets"]):
-                    add("c05:new-bracket-rule", f"job assigned to bracket {b_used}, expected the new bracket {len(bf['brackets'])}", ev)
-        # a trial is resumed only into the current rung of its bracket, whose rung below is complete
+            if not free and ev["ev"] in ("start", "resume", "next_job") and ev["bracket"] < len(bf["brackets"]):
+                add("c05:new-bracket-rule", f"no open bracket had a free slot, yet the job comes from old bracket {ev['bracket']}", ev)
+        # a trial is resumed only to the next rung of its bracket, after its whole rung has reported
         if ev["ev"] == "resume":
-            br = ev["before"]["brackets"][ev["bracket"]]
+            br = st["brackets"][ev["bracket"]]
             k = ev["rung_index"]
-            ok = k == br["current"] and k >= 1 and isinstance(br["rungs"][k - 1][1], list) and \
+            ok = k >= 1 and k == br["current"] and isinstance(br["rungs"][k][1], list) and \
+                isinstance(br["rungs"][k - 1][1], list) and \
                 all(e[1] is not None for e in br["rungs"][k - 1][1]) and \
-                any(e[0] == ev["trial"] for e in br["rungs"][k - 1][1])
+                any(e[0] == ev["trial"] for e in br["rungs"][k - 1][1]) and \
+                br["rungs"][k][0] == ev["level"]
             if not ok:
                 add("c05:resumed-before-rung-complete", f"trial {ev['trial']} resumed to level {ev['level']} but its rung below is not complete", ev)
     return out
@@ -809,14 +838,15 @@ def monitor_c13_sync(trace):
     def add(sig, what, ev):
         out.append({"signature": sig, "what": what, "detail": {k: v for k, v in ev.items() if k not in ("before",)}})
 
-    for ev in trace["events"]:
+    for ev in _in_contract(trace["events"]):
         if ev["ev"] == "error-raised":
             if ev.get("exc") == "AttributeError" and "NAN" in ev.get("msg", ""):
                 add("c13:on-trial-error-raises-np-NAN", f"on_trial_error raised {ev['msg']}", ev)
             else:
                 add("c13:sync-on-trial-error-raises", f"on_trial_error raised {ev.get('exc')}: {ev.get('msg')}", ev)
         if ev["ev"] == "error":
-            failed.add(ev["trial"])
+            if ev.get("was_pending"):
+                failed.add(ev["trial"])
             bf, st = ev["before"], ev["state"]
             slot = ev["slot"]
             for b, br in enumerate(bf["brackets"]):
@@ -854,7 +884,7 @@ def monitor_c20_sync(trace):
     if trace.get("systems") is None:
         return out
     removable = set()
-    for ev in trace["events"]:
+    for ev in _in_contract(trace["events"]):
         if "state" in ev and "removable" in ev["state"]:
             removable.update(t for t in ev["state"]["removable"] if t is not None)
         if ev["ev"] == "take":
